@@ -75,7 +75,7 @@ def surface_desc(surface, w):
     return d
 
 
-def record_events(optic, w, ray_base=0, max_rays=None, polarized=False, returned=None):
+def record_events(optic, w, ray_base=0, max_rays=None, polarized=False, returned=None, pick=None):
     """Events for every ray of the trace that was just performed on `optic`
     (optic.surface_group holds the per-surface records).  Returns list of
     events without ids."""
@@ -89,7 +89,7 @@ def record_events(optic, w, ray_base=0, max_rays=None, polarized=False, returned
         nr = min(nr, max_rays)
     descs = [None] + [surface_desc(sg.surfaces[k], w) for k in range(1, ns)]
     events = []
-    for r in range(nr):
+    for r in (range(nr) if pick is None else pick):     # pick: the rays of the bundle that carry wavelength w
         for k in range(1, ns):
             d = descs[k]
             p0 = [float(X[k - 1, r]), float(Y[k - 1, r]), float(Z[k - 1, r])]
